@@ -153,6 +153,13 @@ class UpdaterSystem:
             if self.lkind:
                 f, kw = HALF_LO[self.lkind]
                 acc.lowerbound(f, MIN, **kw)
+        elif self.form == "half-rev":  # the two halves installed in the other order: lower first, then upper
+            if self.lkind:
+                f, kw = HALF_LO[self.lkind]
+                acc.lowerbound(f, MIN, **kw)
+            if self.ukind:
+                f, kw = HALF_UP[self.ukind]
+                acc.upperbound(f, MAX, **kw)
         elif self.form == "full":
             f, kw = FULL[self.ukind]
             acc.fullbound(f, MAX, MIN, **kw)
@@ -185,6 +192,12 @@ class UpdaterSystem:
         yield ("updatesome", "q", False)
         yield ("updatesome2", ("p", "q"), True)
         yield ("updatesome2", ("q", "p"), True)
+        if self.form in ("half", "half-rev"):
+            # installing the same half again in the middle of a run changes nothing (in particular not the other half)
+            if self.ukind:
+                yield ("rebound", "upper")
+            if self.lkind:
+                yield ("rebound", "lower")
         yield ("del", "p")
 
     # model helpers
@@ -264,6 +277,13 @@ class UpdaterSystem:
                     self.apply(st, prm)
                     if clr:
                         st.pos[prm], st.neg[prm] = [], []
+            elif name == "rebound":
+                if op[1] == "upper":
+                    f, kw = HALF_UP[self.ukind]
+                    upd.p.upperbound(f, MAX, **kw)
+                else:
+                    f, kw = HALF_LO[self.lkind]
+                    upd.p.lowerbound(f, MIN, **kw)
             elif name == "del":
                 delattr(upd, op[1])
                 st.pos[op[1]], st.neg[op[1]] = [], []
@@ -424,6 +444,7 @@ def run(rep):
         cfgs.append(("default", "none", "half", kind, kind))
         cfgs.append(("default", "none", "full", kind, kind))
     cfgs += [("default", "none", "half", "mult", None), ("default", "none", "half", None, "sharp"), ("mean", "ctor", "half", "smult", "mult")]
+    cfgs += [("default", "none", "half-rev", "mult", "mult"), ("default", "none", "half-rev", "sharp", "smult"), ("mean", "ctor", "half-rev", "spower", "mult")]
     for c in cfgs:
         jobs.append((algebra_shard, (*c, depth, cap)))
     for form in ("half", "full"):
